@@ -95,6 +95,13 @@ static rc::Gen<Op> c06_op()
 	    {1, rc::gen::apply([](int conn, std::vector<int> v) { Op o; o.kind = CHUNK; o.conn = conn; o.v = v; return o; }, conn, rc::gen::container<std::vector<int>>(rng(1, 9)))},
 	    {1, op_gen(JUNK, conn, rng(0, 7), zero(), zero(), zero(), zero(), jn)},
 	    {2, op_gen(ADVANCE, zero(), rng(0, 13), zero(), zero(), zero(), zero(), nojoin())},
+	    // ordinary well-formed traffic between the hostile connections: elements, fetches, routed requests and their (late) replies
+	    {4, op_gen(ADD, conn, rng(0, 4), rc::gen::weightedOneOf<int>({{3, rng(0, 15)}, {2, rc::gen::just(-1)}}), zero(), rc::gen::weightedElement<int>({{6, 0}, {1, 1}, {1, 2}}), idmode(), jn)},
+	    {3, op_gen(REMOVE, conn, rng(0, 4), zero(), rc::gen::element<int>(0, 2, 2), zero(), idmode(), jn)},
+	    {2, op_gen(FETCH, conn, rng(0, 4), rng(0, 10), zero(), zero(), idmode(), jn)},
+	    {4, op_gen(SET, conn, rng(0, 4), rng(0, 15), rc::gen::element<int>(0, 2, 2), rc::gen::weightedElement<int>({{6, 0}, {1, 1}, {1, 2}}), idmode(), jn)},
+	    {4, op_gen(CALL, conn, rng(0, 4), rng(0, 15), rc::gen::element<int>(0, 2, 2), rc::gen::weightedElement<int>({{6, 0}, {1, 1}, {1, 2}}), idmode(), jn)},
+	    {5, op_gen(REPLY, conn, rng(0, 4), rng(0, 5), rng(0, 15), zero(), zero(), jn)},
 	    // the witness: valid requests only
 	    {6, op_gen(INFO, zero(), zero(), zero(), zero(), zero(), rc::gen::element<int>(ID_NUM, ID_STR), jn)},
 	});
